@@ -27,6 +27,8 @@ warnings.simplefilter("ignore")
 sys.path.insert(0, os.path.dirname(os.path.abspath(__file__)))
 import common as C  # noqa: E402
 
+sys.path.insert(0, str(C.REPO))  # the tree under test (SKC_REPO overrides /repo for self-tests on scratch worktrees)
+
 
 def _worker_init():
     # CBC and friends write to fd 1; workers have nothing to say there
